@@ -14,7 +14,7 @@ log = [l.rstrip() for l in open(f"/tmp/confirm-{prop}-r{rnd}.log") if l.strip()]
 meta = {
     "id": f"{prop}-r{rnd}",
     "breaks_property": prop,
-    "origin": {"2": "second", "3": "third", "5": "fifth"}.get(rnd, rnd) + " round: written by an independent sub-agent that saw only the text of the property and a scratch worktree of /repo, and was told that an extensive randomized suite already exists and that the change must need a conjunction of specific conditions" + (" (third round: also told which kinds of generators such a suite has - enumeration of single instructions and adjacent pairs, long programs, page-edge programs, priming accesses, API histories, stress runs, Unicode input, both builds)" if rnd == "3" else (" (fifth round: told that about 120 earlier changes were caught and asked to aim at what is likely still untested: API entry points, VM kinds and parameter combinations left out because a similar one is covered; second uses; interactions of features; error paths)" if rnd == "5" else "")),
+    "origin": ("eighth round: written by an independent sub-agent that saw only the text of the property (statement, quantifier, anchors) and a scratch worktree of /repo; the brief said nothing about the suite and asked for one plausible maintenance edit that needs something specific to manifest (a multi-step API sequence, an unusual legal input, state left by an earlier execution or Err, two cooperating sites, a particular VM kind or engine combination), preferably not in the most obvious anchor") if rnd == "8" else {"2": "second", "3": "third", "5": "fifth"}.get(rnd, rnd) + " round: written by an independent sub-agent that saw only the text of the property and a scratch worktree of /repo, and was told that an extensive randomized suite already exists and that the change must need a conjunction of specific conditions" + (" (third round: also told which kinds of generators such a suite has - enumeration of single instructions and adjacent pairs, long programs, page-edge programs, priming accesses, API histories, stress runs, Unicode input, both builds)" if rnd == "3" else (" (fifth round: told that about 120 earlier changes were caught and asked to aim at what is likely still untested: API entry points, VM kinds and parameter combinations left out because a similar one is covered; second uses; interactions of features; error paths)" if rnd == "5" else "")),
     "needs_to_manifest": needs,
     "confirmed_by_me": {
         "log": log,
